@@ -249,6 +249,15 @@ func c18(p *P) {
 
 	// ---- R3 admission
 	if fn := p.fn("C18.R3", "chainexchange.PubSubChainExchange.validatePubSubMessage"); fn != nil {
+		// one snapshot of the node's progress decides range AND base: reading it twice lets the instance advance in between
+		nProg := 0
+		for _, in := range instrsOf(fn) {
+			if call, ok := in.(*ssa.Call); ok && !call.Call.IsInvoke() && call.Call.StaticCallee() == nil && strings.HasSuffix(canon(call.Call.Value), ".progress") {
+				nProg++
+				r.Check(!inLoop(call), "C18.R3", "validatePubSubMessage: progress snapshot taken outside any loop", p.c.InstrPos(call), "once", "progress read inside a loop")
+			}
+		}
+		r.Check(nProg == 1, "C18.R3", "validatePubSubMessage: admission decided on a single snapshot of the progress", p.c.Pos(fn.Pos()), "1 read", fmt.Sprintf("%d reads of the progress — the instance-range check and the base check can see different instances, so a broadcast contradicting the current input is admitted when the node advances in between", nProg))
 		acceptC := fmt.Sprintf("%d:ValidationResult", p.constValue("github.com/libp2p/go-libp2p-pubsub", "ValidationAccept"))
 		acc := constReturns(fn, 0, acceptC)
 		for _, fs := range fieldStores(fn, false, "Message", "ValidatorData") {
